@@ -20,6 +20,15 @@ TEMPLATES = {
     "hash.commented": ("{% for copyright_line in copyright_lines %}\n# {{ copyright_line }}\n{% endfor %}\n"
                        "{% for contributor_line in contributor_lines %}\n# SPDX-FileContributor: {{ contributor_line }}\n{% endfor %}\n#\n"
                        "{% for expression in spdx_expressions %}\n# SPDX-License-Identifier: {{ expression }}\n{% endfor %}\n"),
+    # a fixed licence line instead of the loop (equal to what the harness requests: MIT)
+    "fixed-licence": ("{% for copyright_line in copyright_lines %}\n{{ copyright_line }}\n{% endfor %}\n"
+                      "{% for contributor_line in contributor_lines %}\nSPDX-FileContributor: {{ contributor_line }}\n{% endfor %}\n\nSPDX-License-Identifier: MIT\n"),
+    # a fixed notice on top of the loops: the header holds more than was requested
+    "extra-notice": ("{% for copyright_line in copyright_lines %}\n{{ copyright_line }}\n{% endfor %}\nSPDX-FileCopyrightText: 2019 Example Org\n\n"
+                     "{% for expression in spdx_expressions %}\nSPDX-License-Identifier: {{ expression }}\n{% endfor %}\n"),
+    # pre-commented and information-dropping
+    "nolicence.commented": ("# Project header\n#\n{% for copyright_line in copyright_lines %}\n# {{ copyright_line }}\n{% endfor %}\n"),
+    "nothing.commented": "# Just some text\n",
 }
 
 
